@@ -41,6 +41,8 @@ def run(chk: Check) -> None:
     from .c07 import run_line_spans_inclusive
     run_line_spans_inclusive(chk, ix, "R13.15")
     run_code_selection_is_keyed(chk, ix)
+    run_reports_on_behalf_use_that_modules_options(chk, ix)
+    run_unused_ignore_predicate_agrees(chk, ix)
     aei = ix.func("mypy.errors.Errors.add_error_info")
     g = CFG(aei.node)
 
@@ -721,3 +723,68 @@ def run_code_selection_is_keyed(chk: Check, ix) -> None:
             r16.ok(k, f.loc())
         else:
             r16.violation(k, "mypy/options.py", f"`{o}` decides which diagnostics a run stores for a module but is not in OPTIONS_AFFECTING_CACHE: with a per-module config section (which resets the raw disable_error_code / enable_error_code lists to []) a changed --disable-error-code / --enable-error-code leaves the module's record fresh, and the previous run's diagnostics and exit status are replayed")
+
+
+def run_reports_on_behalf_use_that_modules_options(chk: Check, ix) -> None:
+    """R13.17: a suppressible diagnostic reported for a module is filtered by that module's options."""
+    r17 = chk.rule("R13.17", "Errors decides whether a code is enabled from the options handed to set_file(). The module-level functions of build.py that report a *non-blocking* diagnostic on behalf of a build State (`errors.set_file(<state>.xpath, <state>.id, opts)` followed by manager.error(...) without blocker=True: module_not_found, skipping_module, skipping_ancestor) pass that State's own options (`<state>.options`), where per-module and inline `disable_error_code` live; with the global options the diagnostic can only be removed from the command line", floor=3)
+    b = ix.module("mypy.build")
+    n = 0
+    for f in b.functions.values():
+        for c in ast.walk(f.node):
+            if not (isinstance(c, ast.Call) and call_name(c) == "set_file" and len(c.args) + len(c.keywords) >= 3 and isinstance(c.args[0], ast.Attribute) and c.args[0].attr == "xpath" and isinstance(c.args[0].value, ast.Name)):
+                continue
+            st = c.args[0].value.id
+            opts = c.args[2] if len(c.args) >= 3 else next((k.value for k in c.keywords if k.arg == "options"), None)
+            if opts is None:
+                continue
+            # non-blocking reports in the function?
+            reports = [e for e in ast.walk(f.node) if isinstance(e, ast.Call) and call_name(e) == "error" and not any(k.arg == "blocker" and isinstance(k.value, ast.Constant) and k.value.value is True for k in e.keywords)]
+            if not reports:
+                continue
+            n += 1
+            key = f"build.{f.name}: diagnostics attributed to `{st}` are filtered by `{st}.options`"
+            if norm(opts) == f"{st}.options":
+                r17.ok(key, f.loc(c))
+            else:
+                r17.violation(key, f.loc(c), f"set_file(..., {norm(opts)}): the per-module / inline `disable_error_code` of `{st}` is not consulted, so the error is not removed by disabling its code for that module (only by the global flag)")
+    if n < 3:
+        raise AnalysisError(f"build.py: only {n} module-level functions reporting a non-blocking diagnostic on behalf of a State found")
+
+
+def run_unused_ignore_predicate_agrees(chk: Check, ix) -> None:
+    """R13.18: both ignore-comment generators mean the same by 'unused ignores are reported'."""
+    r18 = chk.rule("R13.18", "State.generate_unused_ignore_notes reports unused ignores under a condition over three inputs (warn_unused_ignores, UNUSED_IGNORE in enabled_error_codes, UNUSED_IGNORE not in disabled_error_codes); State.generate_ignore_without_code_notes passes 'unused ignores are reported' to Errors.generate_ignore_without_code_errors, which then leaves an unused bare ignore to the other generator. The value passed (a local or an expression) reads the same three inputs, so that an unused bare `# type: ignore` is reported exactly once however the report was enabled", floor=1)
+    st = ix.cls("mypy.build.State")
+    a, b = st.methods.get("generate_unused_ignore_notes"), st.methods.get("generate_ignore_without_code_notes")
+    if a is None or b is None:
+        raise AnalysisError("State.generate_unused_ignore_notes / generate_ignore_without_code_notes not found")
+
+    def inputs(e: ast.AST) -> set[str]:
+        out = set()
+        for x in ast.walk(e):
+            if isinstance(x, ast.Attribute) and norm(x.value) == "self.options":
+                out.add(x.attr)
+        return out
+    first_if = next((s_ for s_ in a.node.body if isinstance(s_, ast.If)), None)
+    if first_if is None:
+        raise AnalysisError("generate_unused_ignore_notes: no guarding `if` found")
+    want = inputs(first_if.test)
+    if len(want) < 3:
+        raise AnalysisError(f"generate_unused_ignore_notes: guard reads only {sorted(want)}")
+    calls = [c for c in ast.walk(b.node) if isinstance(c, ast.Call) and call_name(c) == "generate_ignore_without_code_errors"]
+    if len(calls) != 1 or len(calls[0].args) < 2:
+        raise AnalysisError("generate_ignore_without_code_notes: call of generate_ignore_without_code_errors(file, is_warning_unused_ignores, ...) not found")
+    arg = calls[0].args[1]
+    if isinstance(arg, ast.Name):
+        defs = [x.value for x in ast.walk(b.node) if isinstance(x, ast.Assign) and len(x.targets) == 1 and isinstance(x.targets[0], ast.Name) and x.targets[0].id == arg.id]
+        got = set().union(*[inputs(d) for d in defs]) if defs else set()
+    elif isinstance(arg, ast.Call) and isinstance(arg.func, ast.Attribute) and norm(arg.func.value) == "self" and arg.func.attr in st.methods:
+        got = inputs(st.methods[arg.func.attr].node)
+    else:
+        got = inputs(arg)
+    key = "generate_ignore_without_code_notes: 'unused ignores are reported' is computed from the inputs generate_unused_ignore_notes tests"
+    if got == want:
+        r18.ok(key, b.loc(calls[0]))
+    else:
+        r18.violation(key, b.loc(calls[0]), f"the value passed reads {sorted(got)} but the unused-ignore generator decides from {sorted(want)}: with `--enable-error-code unused-ignore --enable-error-code ignore-without-code` an unused bare `# type: ignore` gets both errors (with --warn-unused-ignores only one)")
